@@ -216,3 +216,44 @@ package electreIII
 //@   property C20 C05 C07
 //@   ensures [validated] result != nil && fresh(result) && forall k int :: 0 <= k && k < len(dm.Criteria) ==> dm.Criteria[k].Id in *result && (*result)[dm.Criteria[k].Id].K > 0.0
 //@   loop 1 invariant [validated] forall k int :: 0 <= k && k < iter ==> dm.Criteria[k].Id in electreCriteria && electreCriteria[dm.Criteria[k].Id].K > 0.0
+
+// ---- distillation: which credibilities qualify at a cut level (C05)
+//@ spec lin(f utils.LinearFunctionParameters, x real) real = (f.A == 0.0 && f.B == 0.0) ? 0.0 : f.A * x + f.B
+
+//@ func (*Matrix).At
+//@   property C05
+//@   panics_iff [out_of_range] row * m.Size + col < 0 || row * m.Size + col >= len(m.Data)
+//@   ensures [row_major] result == m.Data[row * m.Size + col]
+
+// the cut level below the maximal credibility: the largest value strictly below maxCred - s(maxCred)
+//@ func getDistillateMatrix$1
+//@   property C05
+//@   nopanic
+//@   ensures [next_level_below_the_threshold] result <==> (new < minCredThreshold && new > old)
+// a credibility qualifies iff it is above the cut level and exceeds the reverse credibility by more than s(its own value)
+//@ func getDistillateMatrix$2
+//@   property C05
+//@   requires 0 <= col * matrix.Size + row && col * matrix.Size + row < len(matrix.Data)
+//@   ensures [qualifies] result <==> (v > minCred && v > matrix.Data[col * matrix.Size + row] + lin(*distillationFun, v))
+
+//@ func calcCoords
+//@   property C05
+//@   requires size > 0 && index >= 0
+//@   ensures [row_major] result0 * size + result1 == index && 0 <= result1 && result1 < size
+
+//@ func (*Matrix).Filter
+//@   property C05
+//@   fnparam filter pure
+//@   requires [square] m.Size > 0 && len(m.Data) == m.Size * m.Size
+//@   ensures [kept_or_zero] fresh(result) && result.Size == m.Size && len(result.Data) == len(m.Data) && fresh(result.Data)
+//@             && forall i int :: 0 <= i && i < len(m.Data) ==> (result.Data[i] == m.Data[i] || result.Data[i] == 0.0)
+//@   ensures [input_untouched] unchanged(m.Data)
+//@   loop 1 invariant [ctx] fresh(newVals) && len(newVals) == m.Size * m.Size && unchanged(m.Data)
+//@   loop 1 invariant [kept_or_zero] forall i int :: 0 <= i && i < iter ==> (newVals[i] == m.Data[i] || newVals[i] == 0.0)
+
+//@ func (*Matrix).FindBest
+//@   property C05
+//@   fnparam isBetter pure
+//@   panics_iff [empty] m.Size == 0 || len(m.Data) == 0
+//@   ensures [an_entry] exists k int :: 0 <= k && k < len(m.Data) && result == m.Data[k]
+//@   loop 1 invariant [an_entry] exists k int :: 0 <= k && k < len(m.Data) && best == m.Data[k]
